@@ -473,3 +473,72 @@ def ao(cx):
     cx.need(nuse >= 1, "AO: array.py no longer reads the offset table of another object anywhere (the rule has nothing to look at)")
     if not nbad:
         cx.ok(None, construct=f"{nfun} functions of array.py, {nuse} read(s) of another object's `_offsets`", detail="each is copied element-wise / read for a value; none is taken over as the new object's table", anchor="array::Array._inspect_args")
+
+
+# ------------------------------------------------------------------------------------------ P6 slots vs pickling
+_P6_POSITIVE = '''
+class Chunk:
+    __slots__ = ("start", "end")
+
+    def __init__(self, start, end):
+        self.start = start
+        self.end = end
+'''
+_P6_NEGATIVE = '''
+class Chunk:
+    __slots__ = ("start", "end")
+
+    def __getstate__(self):
+        return (self.start, self.end)
+
+    def __setstate__(self, st):
+        self.start, self.end = st
+'''
+
+
+def _p6_classes(tree):
+    """[(ClassDef, has_slots, has_state_protocol)] -- base classes of the same module are followed for the protocol"""
+    classes = {c.name: c for c in ast.walk(tree) if isinstance(c, ast.ClassDef)}
+
+    def own(c, names):
+        for st in c.body:
+            if isinstance(st, ast.FunctionDef) and st.name in names:
+                return True
+            if isinstance(st, ast.Assign) and any(isinstance(t, ast.Name) and t.id in names for t in st.targets):
+                return True
+        return False
+
+    def has_protocol(c, seen=()):
+        if own(c, {"__getstate__", "__reduce__", "__reduce_ex__", "__getnewargs__", "__getnewargs_ex__"}):
+            return True
+        for b in c.bases:
+            bn = b.id if isinstance(b, ast.Name) else b.attr if isinstance(b, ast.Attribute) else None
+            if bn in classes and bn not in seen and has_protocol(classes[bn], seen + (c.name,)):
+                return True
+        return False
+
+    return [(c, own(c, {"__slots__"}), has_protocol(c)) for c in classes.values()]
+
+
+@rule("P6", ["C20"], "classes whose instances travel inside a pickled buffer / context (free-list chunks, buffers, contexts, kernels' descriptions) do not declare __slots__ without a state protocol: such a class cannot be pickled with protocols 0 and 1")
+def p6(cx):
+    """Buffers are pickled through their instance dictionary, which holds the free list (`chunks`: Chunk objects), the
+    context, the storage.  CPython pickles an instance of a class with `__slots__` and no `__getstate__` / `__reduce__`
+    only with protocol >= 2: with protocols 0 and 1 `pickle.dumps` of ANY object whose buffer has a non-empty free list
+    raises TypeError -- nothing comes back.  Decided structurally over context.py and context_cpu.py; expected count
+    zero, built-in positive and negative examples classified on every run."""
+    m = cx.m
+    for src, want in ((_P6_POSITIVE, 1), (_P6_NEGATIVE, 0)):
+        got = sum(1 for c, slots, proto in _p6_classes(ast.parse(src)) if slots and not proto)
+        cx.need(got == want, f"P6: the built-in {'positive' if want else 'negative'} example gives {got} report(s)")
+    n = nbad = 0
+    for name in ("context", "context_cpu"):
+        mi = m.mod(name)
+        for c, slots, proto in _p6_classes(ast.parse(mi.source)):
+            n += 1
+            if slots and not proto:
+                nbad += 1
+                cx.bad(f"xobjects/{name}.py:{c.lineno}", construct=f"class {c.name}: __slots__ without __getstate__ / __reduce__", detail="instances are part of the state of a pickled buffer or context; pickle protocols 0 and 1 refuse such a class (TypeError: a class that defines __slots__ without defining __getstate__ cannot be pickled), so pickling any object whose buffer holds one fails", anchor=f"{name}::{c.name}")
+    cx.need(n >= 8, f"P6: only {n} classes found in context.py / context_cpu.py")
+    if not nbad:
+        cx.ok(None, construct=f"{n} classes of context.py / context_cpu.py", detail="none declares __slots__ without a state protocol", anchor="context::Chunk")
